@@ -158,16 +158,19 @@ def run_named_file(case, agg):
     cps.reset_sandbox()
     cs = env.new_csvpaths(**kw)
     cs.paths_manager.add_named_paths(name="all", paths=["~ id: m ~ $[*][yes()]"])
-    for step, data in (("A", A), ("B", B), ("A again", A)):
+    methods = ["collect_paths", "collect_by_line", "next_paths", "next_by_line"]
+    k0 = len(A) % 4
+    for si, (step, data) in enumerate((("A", A), ("B", B), ("A again", A))):
+        method = methods[(k0 + si) % 4]  # serial and breadth-first runs open the file through different readers
         oracle = [rec for rec in csvgen.parse_bytes(data, dialect) if len(rec) > 0]
         if not oracle:
             return None
         cps.add_file(cs, "nf", data=data, srcname="nf.csv")
         inst = env.new_csvpaths(**kw)
         with hooks.recording(agg) as rec:
-            lines, exc = cps.run_method(inst, "collect_paths", "all", "nf")
+            lines, exc = cps.run_method(inst, method, "all", "nf")
         agg.count("named_file_runs")
-        w = {"step": step, "dialect": dialect, "registered_records": oracle[:4]}
+        w = {"step": step, "method": method, "dialect": dialect, "registered_records": oracle[:4]}
         if exc is not None:
             w["exc"] = f"{type(exc).__name__}: {str(exc)[:200]}"
             return "named-file-run-raises", w
